@@ -144,13 +144,14 @@ def multichar_family():
 
 
 def t_multichar(acc, L):
-    for idx, spec in multichar_family():
+    import itertools
+    for idx, spec in itertools.chain(multichar_family(), pda.multichar_pushpop_family()):
         try:
-            pda.build(spec, ('A', 'B', 'AB'), 's', '_')
+            pda.build(spec, ('A', 'B', 'AB', '$'), 's', '_')
         except Exception:
             acc.c['multichar_stack_symbols_rejected_by_the_constructor'] += 1      # a stricter constructor is not a violation
             continue
-        check(acc, spec, L, (5, 8), ('A', 'B', 'AB'), '_')
+        check(acc, spec, L + (2 if spec[1] == 5 else 0), (5, 8), ('A', 'B', 'AB', '$'), '_')
 
 
 def t_chain(acc, n, L):
